@@ -304,7 +304,22 @@ func (p *Prog) mapNonNil(fn *ssa.Function, cz *canonizer, m ssa.Value, at ssa.In
 					allOK = false
 					continue
 				}
-				if ok, _ := rec(e, x.Block().Preds[i].Instrs[len(x.Block().Preds[i].Instrs)-1]); ok {
+				// m, ok := v.(map…); if !ok { m = make… }: the asserted value flows in over the ok edge of its own test
+				edgeOK := false
+				if ex, isEx := e.(*ssa.Extract); isEx && ex.Index == 0 {
+					if ta, isTA := ex.Tuple.(*ssa.TypeAssert); isTA && ta.CommaOk {
+						pred := x.Block().Preds[i]
+						if ifi, isIf := pred.Instrs[len(pred.Instrs)-1].(*ssa.If); isIf && pred.Succs[0] != pred.Succs[1] {
+							ng := normGuard(guard{ifi.Cond, pred.Succs[0] == x.Block()})
+							if okx, isOk := ng.Cond.(*ssa.Extract); isOk && okx.Tuple == ssa.Value(ta) && okx.Index == 1 && ng.Pol {
+								edgeOK = true
+							}
+						}
+					}
+				}
+				if edgeOK {
+					okEdges = append(okEdges, i)
+				} else if ok, _ := rec(e, x.Block().Preds[i].Instrs[len(x.Block().Preds[i].Instrs)-1]); ok {
 					okEdges = append(okEdges, i)
 				} else {
 					allOK = false
